@@ -135,7 +135,7 @@ func (c *Cluster) Run() {
 	done := make(chan struct{})
 	defer close(done)
 	go func() {
-		t := time.NewTimer(60 * time.Second)
+		t := time.NewTimer(300 * time.Second)
 		defer t.Stop()
 		select {
 		case <-done:
